@@ -131,6 +131,9 @@ def build_tu(cases, idxs, linemap=None):
 GCC_FLAGS = ["-O0", "-w", "-std=gnu11", "-fsanitize=undefined,float-cast-overflow,float-divide-by-zero", "-fsanitize-undefined-trap-on-error", "-ffp-contract=off", "-fwrapv-pointer"]
 
 
+RUN_TIMEOUT = 300  # seconds of wall clock for one batch executable (a safety net against non-terminating generated functions)
+
+
 def _compile_run(cases, idxs, d, tag, extra_flags=(), linemap=None, warn_exclude=None, excluded=None):
     src = os.path.join(d, "tu_%s.c" % tag)
     exe = os.path.join(d, "tu_%s.exe" % tag)
@@ -149,13 +152,18 @@ def _compile_run(cases, idxs, d, tag, extra_flags=(), linemap=None, warn_exclude
                 if k is not None:
                     excluded[k] = m.group(2)[:100]
     env = dict(os.environ, UBSAN_OPTIONS="print_stacktrace=0:halt_on_error=0")
-    r = subprocess.run([exe], stdout=subprocess.PIPE, stderr=subprocess.STDOUT, text=True, env=env, errors="replace")
+    try:
+        r = subprocess.run([exe], stdout=subprocess.PIPE, stderr=subprocess.STDOUT, env=env, timeout=RUN_TIMEOUT)
+        out = r.stdout.decode("utf-8", "replace")
+    except subprocess.TimeoutExpired as e:
+        # a generated function that does not terminate: the calls after it have no result line and are discarded by the callers
+        out = (e.stdout or b"").decode("utf-8", "replace") + "\nTIMEOUT\n"
     try:
         os.unlink(exe)
         os.unlink(src)
     except OSError:
         pass
-    return r.stdout, None
+    return out, None
 
 
 def parse_output(text, cases):
@@ -200,13 +208,13 @@ def parse_output(text, cases):
     return res
 
 
-def run_cases(cases, d, batch=150, tag="b", extra_flags=(), warn_exclude=None):
+def run_cases(cases, d, batch=150, tag="b", extra_flags=(), warn_exclude=None, only=None):
     """-> list aligned with cases: None (rejected by gcc) | {vi: outcome}
     warn_exclude: regex on gcc warning texts (pass the -W flags in extra_flags, after "-Wno-w" is not needed: put "-W..." flags
     there; -w is overridden by later -W options); cases with a matching warning get every vector marked ("ub", warning)."""
     excluded = {}
     out = [None] * len(cases)
-    idx = list(range(len(cases)))
+    idx = list(range(len(cases))) if only is None else list(only)  # only: the sub-list of case indices to run (suffixes stay the full-list indices)
     n = 0
     for s in range(0, len(idx), batch):
         chunk = idx[s:s + batch]
@@ -239,4 +247,24 @@ def run_cases(cases, d, batch=150, tag="b", extra_flags=(), warn_exclude=None):
                 out[k] = res.get(k, {})
                 if k in excluded:
                     out[k] = {vi: ("ub", "gcc warning: " + excluded[k]) for vi in range(len(cases[k]["vectors"]))}
+    return out
+
+
+STRICT_FLAGS = ["-pedantic-errors"]
+
+
+def run_cases_policy(cases, d, batch=150, tag="b"):
+    """Like run_cases, but honours the per-case key "strict": such cases are compiled with -pedantic-errors and without -w, and any
+    gcc warning excludes the case (all its calls become ("ub", "gcc warning: ...")); the other cases keep the plain flags."""
+    plain = [k for k, c in enumerate(cases) if not c.get("strict")]
+    strict = [k for k, c in enumerate(cases) if c.get("strict")]
+    out = [None] * len(cases)
+    if plain:
+        r = run_cases(cases, d, batch=batch, tag=tag + "p", only=plain)
+        for k in plain:
+            out[k] = r[k]
+    if strict:
+        r = run_cases(cases, d, batch=batch, tag=tag + "s", extra_flags=STRICT_FLAGS, warn_exclude=r".", only=strict)
+        for k in strict:
+            out[k] = r[k]
     return out
